@@ -153,8 +153,21 @@ func ruleDeleteRewind(names ...string) func(p *Prog, l *Ledger, tier string) {
 				lp := loopOf(ph.Block())
 				okAll, any := true, false
 				why := ""
+				// only the ways round the loop that come from the deletion matter
+				fromDel := map[*ssa.BasicBlock]bool{d.st.Block(): true}
+				work := []*ssa.BasicBlock{d.st.Block()}
+				for len(work) > 0 {
+					x := work[len(work)-1]
+					work = work[:len(work)-1]
+					for _, sc := range x.Succs {
+						if sc != ph.Block() && !fromDel[sc] && lp != nil && lp[sc] {
+							fromDel[sc] = true
+							work = append(work, sc)
+						}
+					}
+				}
 				for i, e := range ph.Edges {
-					if lp == nil || !lp[ph.Block().Preds[i]] {
+					if lp == nil || !lp[ph.Block().Preds[i]] || !fromDel[ph.Block().Preds[i]] {
 						continue
 					}
 					any = true
@@ -927,6 +940,36 @@ func ruleMarkingOrder(p *Prog, l *Ledger, tier string) {
 				if instrReaches(c.ins, d.ins) && !(c.ins.Block() == d.ins.Block() && instrDominates(d.ins, c.ins) && !inLoop(c.ins.Block())) {
 					l.Fail(rule, FnName(f), l.Key(rule, FnName(f), "order", ""), p.Pos(d.ins.Pos()),
 						fmt.Sprintf("%s: a style is marked as used at %s after the parent-style closure at %s has run: the parents of that style are not marked and get deleted although a cue still reaches them through inheritance", FnName(f), p.Pos(d.ins.Pos()), p.Pos(c.ins.Pos())))
+				}
+			}
+		}
+	}
+	// the sweep of the style table starts only when marking is complete: no store into a used-set is
+	// reachable from a delete(…Styles, …) (a single pass that deletes and marks in the same loop
+	// removes a parent before the child that keeps it alive has been visited, depending on map order)
+	for _, f := range fns {
+		var dels, marks []ssa.Instruction
+		for _, b := range f.Blocks {
+			for _, ins := range b.Instrs {
+				switch x := ins.(type) {
+				case *ssa.MapUpdate:
+					if markKind(x) != "" {
+						marks = append(marks, ins)
+					}
+				case *ssa.Call:
+					if bi, ok := x.Call.Value.(*ssa.Builtin); ok && bi.Name() == "delete" {
+						if mt, ok := x.Call.Args[0].Type().Underlying().(*types.Map); ok && isPtrToNamed(mt.Elem(), "Style") {
+							dels = append(dels, ins)
+						}
+					}
+				}
+			}
+		}
+		for _, d := range dels {
+			for _, m := range marks {
+				if instrReaches(d, m) {
+					l.Fail(rule, FnName(f), l.Key(rule, FnName(f), "sweep-before-marking-done", ""), p.Pos(d.Pos()),
+						fmt.Sprintf("%s: a style can be deleted at %s while styles are still being marked as used at %s: a parent style visited before the style that inherits from it is removed although it is needed (which one is visited first depends on map iteration order)", FnName(f), p.Pos(d.Pos()), p.Pos(m.Pos())))
 				}
 			}
 		}
